@@ -231,3 +231,127 @@ func genPst(g *vlib.G) {
 		}
 	}
 }
+
+// ---------------------------------------------------------------------------
+// Exactly rank-deficient positive semidefinite matrices and caller-supplied tolerances.
+
+// genPSDClusters: rows fall into r clusters (i mod r); A[i,j] = 2^(s_i+s_j) if i and j are in the same
+// cluster, else 0. Every quantity of the pivoted factorization is a power of two: the pivot of cluster g is
+// max 4^s_i, the Schur complement of a used cluster is exactly zero, the rank is exactly r. pivots
+// returns the cluster pivots in decreasing order.
+func genPSDClusters(n, r int) (a M, pivots []float64) {
+	s := make([]int, n)
+	for i := range s {
+		s[i] = ((i/r)*2+i)%3 - 1
+	}
+	a = newM(n, n)
+	p := make([]float64, r)
+	for i := 0; i < n; i++ {
+		for j := 0; j < n; j++ {
+			if i%r == j%r {
+				a.a[i*n+j] = math.Ldexp(1, s[i]+s[j])
+			}
+		}
+		p[i%r] = math.Max(p[i%r], math.Ldexp(1, 2*s[i]))
+	}
+	for i := 1; i < len(p); i++ {
+		for j := i; j > 0 && p[j] > p[j-1]; j-- {
+			p[j], p[j-1] = p[j-1], p[j]
+		}
+	}
+	return a, p
+}
+
+// pstTols: the caller-supplied tolerances: default, zero (exact tie with the zero Schur complement), a
+// subnormal, exactly the smallest pivot (tie with an accepted-looking pivot), between two pivots.
+func pstTols(pivots []float64) []struct {
+	name string
+	tol  float64
+} {
+	small := pivots[len(pivots)-1]
+	return []struct {
+		name string
+		tol  float64
+	}{{"default", -1}, {"zero", 0}, {"subnormal", 0x1p-1070}, {"tie", small}, {"moderate", 0.75 * pivots[0]}}
+}
+
+func genPstTol(g *vlib.G) {
+	N := vlib.Pick(g, 10, 14)
+	nbs := vlib.Pick(g, []int{1, 2, 3, 4}, []int{1, 2, 3, 4, 5})
+	for n := 2; n <= N; n++ {
+		for _, r := range uniq(1, 1, 2, 3, n-2, n-1) {
+			if r >= n {
+				continue
+			}
+			_, piv0 := genPSDClusters(n, r)
+			for _, tl := range pstTols(piv0) {
+				for _, nb := range nbs {
+					n, r, tl, nb := n, r, tl, nb
+					g.Case(fmt.Sprintf("Dpstrf exact-psd n=%d rank=%d tol=%s nb=%d", n, r, tl.name, nb), func(t *vlib.T) {
+						defer seamOff()
+						seamOn(nb, 0)
+						ck := &checker{t: t}
+						t.Nontrivial()
+						a, pivots := genPSDClusters(n, r)
+						dstop := tl.tol
+						if dstop < 0 {
+							dstop = float64(n) * (eps / 2) * pivots[0]
+						}
+						// the first pivot is accepted whatever the tolerance, each later one iff it exceeds dstop
+						want := 1
+						for _, p := range pivots[1:] {
+							if p > dstop {
+								want++
+							}
+						}
+						paths := map[string]bool{}
+						for _, uplo := range uplos {
+							for _, blocked := range []bool{false, true} {
+								for _, lda := range []int{n, n + 3} {
+									name := "Dpstf2"
+									if blocked {
+										name = "Dpstrf"
+									}
+									ck.ctx = fmt.Sprintf("%s uplo=%s lda=%d", name, uploName(uplo), lda)
+									run := runPstrf(ck, name, uplo, a, lda, tl.tol, blocked)
+									if blocked {
+										paths[run.path] = true
+									}
+									if run.rank != want || run.ok {
+										ck.failf("rank=%d ok=%v, want rank %d (cluster pivots %v, stopping value %v) and ok=false", run.rank, run.ok, want, pivots, dstop)
+									}
+									for _, v := range run.fac.a {
+										if math.IsNaN(v) || math.IsInf(v, 0) {
+											ck.failf("NaN or Inf in the factor (a pivot equal to the stopping value was accepted?)")
+											break
+										}
+									}
+									pstOracle(ck, name, uplo, a, run, tl.tol, "psd", want, true)
+									// exact data: every accepted pivot after the first is strictly above the stopping value,
+									// and the factor diagonal holds the exact square roots
+									for i := 0; i < imin(run.rank, n); i++ {
+										d := run.fac.at(i, i)
+										if i < len(pivots) && d*d != pivots[i] {
+											ck.failf("pivot %d is %v, want exactly %v", i, d*d, pivots[i])
+											break
+										}
+										if i > 0 && !(d*d > dstop) {
+											ck.failf("accepted pivot %v is not above the stopping value %v", d*d, dstop)
+											break
+										}
+									}
+								}
+							}
+						}
+						ck.ctx = ""
+						oc := ""
+						for _, k := range vlib.SortedKeys(paths) {
+							oc += "+" + k
+						}
+						t.Outcome(tl.name + "/" + oc)
+					})
+				}
+			}
+		}
+	}
+}
